@@ -1,5 +1,7 @@
 """./check <PROPERTY> --tier quick|thorough : run every theorem of a property, write evidence, exit code."""
 import argparse
+import sys as _sys
+_sys.set_int_max_str_digits(0)
 import ast
 import glob
 import importlib
@@ -57,6 +59,12 @@ def work_theorem(args):
         res = verify.generate(thm)
         out["paths"] = res.paths
         out["unsupported"] = res.unsupported
+        if res.unsupported and not kf_classes:
+            # the code left the verifier's subset: runtime contract checking of the real code is the bounded stand-in
+            ns = native_search(thm, 300 if tier == "quick" else 20000, seed)
+            if ns["found"]:
+                out["native_violation"] = {"inputs_repr": repr(ns["inputs"]), "result": ns["result"]}
+            out["native_tried"] = ns.get("tried")
         out["gen_s"] = res.gen_s
         out["notes"] = {"inlined": sorted(res.notes["inlined"]), "native": sorted(res.notes["native"]),
                         "unrolled": res.notes["unrolled"],
@@ -240,7 +248,18 @@ def run_property(prop, tier, seed, only=None, keep=False, jobs=None, replays_dir
             errors.append(f"{t.name}: {res['error']}")
             continue
         if res["unsupported"]:
-            undecided.append({"theorem": t.name, "why": "unsupported: " + res["unsupported"]})
+            if res.get("native_violation"):
+                nv = res["native_violation"]
+                cl = nv["result"]
+                gname = f"{t.name}.{cl.get('case')}.{cl.get('clause')}"
+                violations.append({"property": prop, "theorem": t.name, "obligation": gname, "group": gname,
+                                   "status": "native", "inputs_repr": nv["inputs_repr"],
+                                   "inputs": replay.jsonable(ast.literal_eval(nv["inputs_repr"])), "native": cl,
+                                   "input_source": "runtime contract check of the real code (the code left the verifier's subset: "
+                                                   + res["unsupported"] + ")",
+                                   "body": t.body, "requires": t.requires})
+            else:
+                undecided.append({"theorem": t.name, "why": "unsupported: " + res["unsupported"]})
             continue
         if not res["obligations"]:
             errors.append(f"{t.name}: zero obligations generated")
